@@ -106,6 +106,10 @@ Fixpoint contents_eqb (md5 : list N -> list N) (a : list (list N * list N))
   | _, _ => false
   end.
 
+(* each exactly once, order not prescribed by the property *)
+Definition same_set (a b : list (list N)) : bool :=
+  Nat.eqb (length a) (length b) && forallb (fun x => existsb (beq x) b) a && forallb (fun x => existsb (beq x) a) b.
+
 Definition to_op (t : list (N * list N)) (o : hop) : op :=
   match o with
   | HCreateBucket b => OCreateBucket b | HDeleteBucket b => ODeleteBucket b
@@ -174,7 +178,7 @@ Definition hist_step (md5 : list N -> list N) (c : config) (hs : hstate) (o : ho
       let has_delim := match o with HList _ _ (Some _) _ _ _ _ => true | _ => false end in
       (mk t, exp_ok ob ++
          expect (contents_eqb md5 (lr_contents lr) (ob_contents ob)) "S:list-contents" ++
-         expect (list_eqb (lr_prefixes lr) (ob_names ob)) "S:list-common-prefixes" ++
+         expect (same_set (lr_prefixes lr) (ob_names ob)) "S:list-common-prefixes" ++
          expect (Bool.eqb (lr_truncated lr) (ob_truncated ob)) "M:is-truncated" ++
          (if v2 || has_delim then expect (beq (lr_next lr) (ob_next ob)) "M:next-marker" else []))
   end.
